@@ -4,7 +4,7 @@
 (* SumOverTime.  Results are exact rationals <<num, den>>.                 *)
 (*                                                                         *)
 (* cfg = [kind, sig, pt, limit, size, pay]                                 *)
-(*   kind  "next" | "prev" | "linear" | "step" | "avg" | "sum"             *)
+(*   kind  "next" | "prev" | "linear" | "step" | "avg" | "sum" | "stack"   *)
 (*   sig   step position as <<num, den>> or <<-1, 1>> for linear (avg/sum) *)
 (*   pt    SumOverTime per_time                                            *)
 (* st = [lab, full, prev, first, ram, files, fin]                          *)
@@ -94,7 +94,13 @@ Def(cfg, es, p0, t) ==
     [] cfg.kind = "sum"    -> Integral(es, cfg.sig, p0, t, cfg.pt)
     [] cfg.kind = "avg"    -> RDiv(Integral(es, cfg.sig, p0, t, TRUE), RInt(t - p0))
 
-Asserted(cfg, st, t) == ~IsInteg(cfg) \/ (st.npull > 0 /\ st.prev < t)
+Asserted(cfg, st, t) == cfg.kind # "stack" /\ (~IsInteg(cfg) \/ (st.npull > 0 /\ st.prev < t))
+
+(* StackTime (growth beyond the listed properties): all retained data sets before t and the   *)
+(* first one at or after t, in order                                                          *)
+StackVals(st, t) ==
+  LET k == CHOOSE j \in 1..Len(st.lab) : st.lab[j].t >= t /\ \A i \in 1..(j - 1) : st.lab[i].t < t
+  IN [i \in 1..k |-> st.lab[i].v]
 
 (* TimeCachingAdapter._get_data / TimeIntegrationAdapter._get_data *)
 Get(cfg, st, t) ==
